@@ -123,6 +123,9 @@ func StatusCtorCode(v ssa.Value) (int64, bool) {
 	return 0, false
 }
 
+// classifying guards the interprocedural step against recursion.
+var classifying = map[*ssa.Function]bool{}
+
 func classifyRoot(v ssa.Value, at ssa.Instruction) ErrClass {
 	if IsNilConst(v) {
 		return ErrNil
@@ -149,7 +152,9 @@ func classifyRoot(v ssa.Value, at ssa.Instruction) ErrClass {
 			}
 		}
 		// repo function whose every return is non-nil at that result index
-		if ci.Static != nil && ci.Static.Blocks != nil && ci.Static != at.Parent() {
+		if ci.Static != nil && ci.Static.Blocks != nil && ci.Static != at.Parent() && !classifying[ci.Static] && len(classifying) < 6 {
+			classifying[ci.Static] = true
+			defer delete(classifying, ci.Static)
 			all := true
 			any := false
 			for _, r := range Returns(ci.Static) {
